@@ -56,6 +56,9 @@ template<int K, class G>
 Out<G> ev(const smooth::BSpline<K, G> & s, double t)
 {
   Out<G> o;
+  // the outputs are pre-filled with NaN: an output that the library does not write (or only scales) is then visible
+  o.v.setConstant(std::numeric_limits<double>::quiet_NaN());
+  o.a.setConstant(std::numeric_limits<double>::quiet_NaN());
   o.g = s(t, o.v, o.a);
   return o;
 }
